@@ -238,6 +238,41 @@ class WordRegions:
         return OK(outcome=(w, tuple(outs)), nontrivial=nt, evals=nev)
 
 
+EP_THR = [dict(S.T0), dict(S.T1), dict(S.T0, min_n_cycles=1), dict(S.T1, min_n_cycles=2, amp_consistency_threshold=.1)]
+
+
+def eval_epoch_list(case):
+    """compute_features_2d(axis=None) with ONE OPTION DICT PER EPOCH: every epoch table is re-labelled with its own thresholds, so
+    its is_burst column must be the threshold-and-run rule applied to THAT table (first and last row of the table never qualify)."""
+    from bycycle.group import compute_features_2d
+    from bcmc.ref.burst import ref_labels_from_table
+    letters, (centre, E, rot) = case[:-1], case[-1]
+    w = ''.join(letters)
+    sig = S.word_signal(w)
+    if len(sig) % E:
+        return SKIP('length not a multiple of the epoch length')
+    n_ep = len(sig) // E
+    thr = [dict(EP_THR[(e + rot) % len(EP_THR)]) for e in range(n_ep)]
+    kws = [{'center_extrema': centre, 'burst_method': 'cycles', 'threshold_kwargs': dict(t)} for t in thr]
+    try:
+        dfs = compute_features_2d(sig.reshape(n_ep, E).copy(), 64, (6, 14), kws, axis=None)
+    except Exception as e:      # noqa
+        return VIOL({'kind': 'raise', 'exc': type(e).__name__, 'site': 'compute_features_2d(axis=None)'},
+                    'compute_features_2d raised %s: %s' % (type(e).__name__, str(e)[:160]))
+    nt = False
+    outs = []
+    for e, df in enumerate(dfs):
+        exp = ref_labels_from_table(df, 'cycles', thr[e])
+        got = [bool(x) for x in df['is_burst'].to_numpy()]
+        if got != exp:
+            return VIOL({'kind': 'epoch-labels', 'centre': centre, 'epoch0': e == 0, 'site': 'compute_features_2d(axis=None)'},
+                        'epoch %d: labels are not the threshold-and-run rule applied to that epoch table with its own thresholds' % e,
+                        expected=exp, observed={'got': got, 'word': w, 'E': E, 'thresholds': thr[e]}, evals=e + 1)
+        nt = nt or any(got)
+        outs.append(tuple(got))
+    return OK(outcome=(w, centre, E, rot, tuple(outs)), nontrivial=nt, evals=len(dfs))
+
+
 def spaces(tier, seed):
     n = 4 if tier == 'quick' else 5
     out = [ProductSpace('profiles^<=%d' % n, [PROFILES] * n, eval_profiles, min_len=1,
@@ -251,6 +286,13 @@ def spaces(tier, seed):
         out.append(ProductSpace('words-W(5,5)-regions', S.word_dims(al, 5), WordRegions('quick'), bounds={'letters': al, 'moving': 1},
                                 describe='pipeline tables (both centrings) x region grid of each threshold x '
                                          'min_n_cycles 0..4'))
+    ep = [(c, E, r) for c in ('peak', 'trough') for E in (32, 16) for r in (0, 1)]
+    out.append(ProductSpace('epoch-list-W(2,8)', [['a', 'd']] * 8 + [ep], eval_epoch_list,
+                            describe='compute_features_2d(axis=None) with one option dict per epoch (epochs of 4 / 2 cycles): labels of every '
+                                     'epoch table against the rule applied to that table'))
+    ep24 = [(c, 24, r) for c in ('peak', 'trough') for r in (0, 2)]
+    out.append(ProductSpace('epoch-list-W(3,6)', S.word_dims(S.alphabet(3), 6) + [ep24], eval_epoch_list,
+                            describe='same, epochs of 3 cycles over 3 letters'))
     if tier != 'quick':
         al = S.alphabet(6, seed, extra=1)
         out.append(ProductSpace('words-W(7,5)-regions', S.word_dims(al, 5), WordRegions('quick'),
